@@ -60,6 +60,8 @@ def _non_unique_id(lex: lmf.Lexicon, ids: _Ids) -> _Result:
         [lex['id']],
         (f['id'] for e in _entries(lex) for f in _forms(e) if f.get('id')),
         (sb['id'] for sb in lex.get('frames', []) if sb.get('id')),
+        (sb['id'] for e in _entries(lex) for sb in e.get('frames', [])
+         if sb.get('id')),
         ids['entry'].elements(),
         ids['sense'].elements(),
         ids['synset'].elements(),
